@@ -70,6 +70,18 @@ def _table_problem(what, item):
             seen.add(n)
             n = P[n]
         return None
+    if what == 'partial':
+        import glue.core.state as gs
+        real_lookup = gs.lookup_class
+        try:
+            gs.lookup_class = lambda n: n
+            out = gs.lookup_class_with_patches(item)
+        finally:
+            gs.lookup_class = real_lookup
+        if out in P:
+            return ('lookup_class_with_patches(%s) stops at %s, which the table redirects further (to %s): the chain of renames '
+                    'is not followed to its end' % (item, out, P[out]))
+        return None
     if what == 'unimportable':
         n, k = item, 0
         while n in P and k <= len(P):
@@ -178,7 +190,7 @@ def tables_harness(tier):
                 out = gs.lookup_class_with_patches(k)
                 if out in P:
                     res['violations'].append(dict(label='lookup_class_with_patches(%s) returned a redirected name' % k,
-                                                  witness=dict(kind='table', what='cycle', item=k), script=None))
+                                                  witness=dict(kind='table', what='partial', item=k), script=None))
                 else:
                     st['discharged'] += 1
         finally:
